@@ -18,7 +18,7 @@
 (* reachable files get a content (canonical form).  Files are numbered so   *)
 (* that an active directive always resolves to a higher number (acyclic).   *)
 (***************************************************************************)
-EXTENDS Naturals, Sequences, FiniteSets, TLC
+EXTENDS DepsRules
 
 CONSTANTS N,            \* files 0..N-1
           SearchPath,   \* sequence of directories on the search path (-I.., -isystem..)
@@ -37,22 +37,13 @@ CONSTANTS N,            \* files 0..N-1
 Files == 0..(N - 1)
 NoFile == N
 Unset == [guard |-> "unset", dirs |-> <<>>, open |-> FALSE]
-Range(s) == {s[i] : i \in DOMAIN s}
 
 VARIABLES L, roots, pre, pending, content, stack, read, reported, lines, macros, onced
 vars == <<L, roots, pre, pending, content, stack, read, reported, lines, macros, onced>>
 
 -----------------------------------------------------------------------------
-(* header search                                                            *)
-At(d, n) == {f \in Files : L.dir[f] = d /\ L.name[f] = n}
-RECURSIVE OnPath(_, _)
-OnPath(n, i) == IF i > Len(SearchPath) THEN NoFile
-                ELSE IF At(SearchPath[i], n) # {} THEN CHOOSE f \in At(SearchPath[i], n) : TRUE
-                ELSE OnPath(n, i + 1)
-(* quoted: the includer's directory first, then the search path; angle: the path only *)
-Resolve(f, d) ==
-  IF d.form = "q" /\ At(L.dir[f], d.name) # {} THEN CHOOSE g \in At(L.dir[f], d.name) : TRUE
-  ELSE OnPath(d.name, 1)
+(* header search (pure operators in DepsRules.tla, shared with Trace_Deps.tla)        *)
+Resolve(f, d) == ResolveIn(L, SearchPath, Files, NoFile, f, d)
 
 FirstForm == IF "q" \in Forms THEN "q" ELSE "a"
 DirectiveChoices(f) ==
@@ -129,10 +120,7 @@ Done == stack = <<>> /\ pending = <<>>
 -----------------------------------------------------------------------------
 (* L1: every input header and every file included, directly or transitively, *)
 (* in an active region                                                        *)
-ActiveTargets(f) == {Resolve(f, content[f].dirs[i]) : i \in {j \in DOMAIN content[f].dirs : content[f].dirs[j].active}}
-RECURSIVE Reach(_, _)
-Reach(S, k) == IF k = 0 THEN S ELSE Reach(S \cup UNION {ActiveTargets(f) : f \in S}, k - 1)
-Influencing == Reach(Range(roots) \cup Range(pre), N)
+Influencing == InfluencingIn(L, SearchPath, Files, NoFile, content, Range(roots) \cup Range(pre), N)
 
 TypeOK == /\ read \subseteq Files /\ reported \subseteq Files
           /\ \A i \in DOMAIN stack : stack[i].file \in read
